@@ -316,8 +316,12 @@ func (progBldr *ProgBuilder) CodePathOper(elem int) {
 		// not implemented
 	case '/':
 		pathOperPush = func(ctx *context) {
-			ctx.actualPathStack.PeakPath().SetIsRootBased(true)
-			//ctx.actualPathStack.PushElem("/")
+			// An absolute path starts at the root whatever path is being
+			// built at this point: inside a predicate the top of the path
+			// stack is a copy of the enclosing path (up to the step the
+			// predicate belongs to), which must not be kept as a prefix.
+			ctx.actualPathStack.PopPath()
+			ctx.actualPathStack.PushPath(&sdcpb.Path{IsRootBased: true})
 		}
 	default:
 		// unknown
